@@ -5,7 +5,17 @@ CHECK = {
     "modules": ["Apko.Proofs.C12"],
     "suites": [("oci", 300, 6000)],
     "fact_prefixes": ["index.go", "image.go", "types.go"],
-    "hashes": {},
+    "hashes": {
+        "pkg/build/oci/image.go:BuildImageFromLayers": "d44838d5625bdafc",
+        "pkg/build/oci/image.go:BuildImageTarballFromLayer": "ed0f7907bc5dba0f",
+        "pkg/build/oci/index.go:BuildIndex": "2f593b4788344467",
+        "pkg/build/oci/index.go:GenerateIndex": "1a182864ef05d782",
+        "pkg/build/oci/index.go:generateIndexWithMediaType": "1a0e6430f9be89e8",
+        "pkg/build/types/types.go:Architecture.ToAPK": "dfde62ff7366fed9",
+        "pkg/build/types/types.go:Architecture.ToOCIPlatform": "006283952ee94161",
+        "pkg/build/types/types.go:ParseArchitecture": "e02fe3bc90bd21c8",
+        "pkg/build/types/types.go:ParseArchitectures": "7ee6a705089e8e1e",
+    },
     "budget_quick": 120,
     "level": "proof",
     "design_ref": "DESIGN.md §4 C12",
